@@ -391,6 +391,62 @@ def seeded_problem(rng, max_tracks=8):
     return (tuple(pats), tuple(tracks), None if refs is None else tuple(refs), nsil)
 
 
+def separable(prob):
+    """every track is compatible (same channel format, pack reference on the channel's path) with at most one channel
+    of every pack, and no pack lists the same (channel format, path) twice"""
+    packs, tracks = prob[0], prob[1]
+    for _r, ch in packs:
+        if len(ch) == 0 or len(set(ch)) != len(ch):
+            return False
+        for c, p in tracks:
+            if sum(1 for cc, path in ch if cc == c and p in path) > 1:
+                return False
+    return True
+
+
+def separable_dup_problem(rng):
+    """OUTSIDE WF but inside the property: a root pack 0 nesting sub-packs 1 and 2 that share a channel format, so the
+    AllocationPack lists that channel format twice on different nested paths; every track references its sub-pack, so
+    each track fits exactly one channel (`separable`); no silent tracks. Every track order is a different problem."""
+    ncf = rng.choice((2, 3, 3, 4))
+    chans = []
+    shared = rng.randrange(ncf)
+    for sub in (1, 2):
+        own = [c for c in range(ncf) if c != shared and (c % 2 == sub % 2 or rng.random() < 0.3)]
+        cs = [shared] + rng.sample(own, rng.randrange(0, len(own) + 1))
+        rng.shuffle(cs)
+        chans += [(c, (0, sub)) for c in cs]
+    if rng.random() < 0.5:
+        rng.shuffle(chans)
+    packs = [(0, tuple(chans))]
+    tracks = [(c, path[1]) for c, path in chans]
+    if rng.random() < 0.3:
+        packs.append((3, ((rng.randrange(ncf), (3,)),)))
+        if rng.random() < 0.6:
+            tracks.append((packs[1][1][0][0], 3))
+    u = rng.random()
+    if u < 0.15 and len(tracks) > 1:
+        tracks.pop(rng.randrange(len(tracks)))
+    elif u < 0.3:
+        tracks = tracks + tracks[:]          # two instances of the root pack
+    rng.shuffle(tracks)
+    refs = None if rng.random() < 0.5 else tuple([0] * (2 if u >= 0.15 and u < 0.3 else 1) + ([3] if len(packs) > 1 and len(tracks) > len(chans) and not (0.15 <= u < 0.3) else []))
+    return (tuple(packs), tuple(tracks), refs, 0)
+
+
+def separable_directed():
+    """the smallest instances, every track order"""
+    out = []
+    for chans in ([(0, (0, 1)), (1, (0, 1)), (1, (0, 2)), (2, (0, 2))],
+                  [(1, (0, 1)), (1, (0, 2))],
+                  [(1, (0, 2)), (0, (0, 1)), (1, (0, 1))]):
+        base = [(c, path[1]) for c, path in chans]
+        for perm in itertools.permutations(base):
+            for refs in (None, (0,)):
+                out.append((((0, tuple(chans)),), tuple(perm), refs, 0))
+    return out
+
+
 def excluded_problem(rng):
     """problems outside WF: a pack listing a channel format twice, or a pack without channels"""
     prob = seeded_problem(rng, max_tracks=5)
@@ -806,6 +862,40 @@ class C07(Spec):
             else:
                 ctx.count("excluded: real output repeats solutions")
 
+    def _separable(self, ctx, probs):
+        """duplicate channel formats on different nested paths, tracks that fit one channel each: outside the theorems'
+        WF but inside the property's quantifier; decided by the independent docstring brute force"""
+        for prob in probs:
+            if is_wf(prob) or not separable(prob):
+                ctx.count("separable-dup: skipped (WF or not separable)")
+                continue
+            brute = py_brute(prob)
+            if brute is None:
+                continue
+            sols, robjs = run_real(prob, limit=2000)
+            canon = [show_real_solution(s, robjs[0], robjs[1], False) for s in sols]
+            ctx.case(("separable-dup", encode(prob)), True)
+            ctx.count("separable-dup: %d permitted" % min(len(brute), 3))
+            for k, sol in enumerate(sols):
+                bad = docstring_violations(sol, robjs)
+                if bad:
+                    ctx.hit("unsound: returned allocation breaks a docstring requirement", prob_json(prob),
+                            {"solution_index": k, "broken": bad}, ["c07-unsound"])
+                    break
+            missing = sorted(brute - set(canon))
+            if missing:
+                ctx.hit("incomplete: a permitted assignment is not returned (duplicate channel format on different nested paths)",
+                        prob_json(prob), {"missing": missing[0], "n_missing": len(missing), "returned": canon[:6]},
+                        ["c07-incomplete"])
+            elif len(set(canon)) != len(canon):
+                ctx.hit("duplicate: the same assignment is reported more than once", prob_json(prob),
+                        {"returned": canon[:6]}, ["c07-duplicate"])
+            elif set(canon) - brute:
+                ctx.hit("unsound: an assignment that is not permitted is returned", prob_json(prob),
+                        {"extra": sorted(set(canon) - brute)[0]}, ["c07-unsound"])
+            else:
+                ctx.count("separable-dup: real output = docstring solutions")
+
     def _select(self, ctx, n):
         import time
         t0 = time.time()
@@ -844,6 +934,7 @@ class C07(Spec):
         n = 2000 if not deep else (12000 if ctx.quick else 80000)
         probs = [seeded_problem(rng) if i % 3 else random_small(rng) for i in range(n)]
         self._run(ctx, probs, "search", with_lean=False)
+        self._separable(ctx, separable_directed() + [separable_dup_problem(rng) for _ in range(1500 if not deep else 6000)])
 
 
 SPEC = C07()
